@@ -269,7 +269,7 @@ def enc_term(slot_index: int, raw) -> bytes:
     if k == "lit":
         return f_bytes(base + 3, enc_literal(raw[1], raw[2], raw[3]))
     if k == "triple":
-        return f_bytes(base + 4, b"".join(enc_term(i, t) for i, t in enumerate(raw[1])))
+        return f_bytes(base + 4, b"".join(enc_term(i, t) for i, t in enumerate(raw[1]) if t is not None))
     raise WireError(f"cannot encode {raw!r}")
 
 
